@@ -26,9 +26,6 @@ type spreader interface {
 
 func newTree(cfg *config, roots []*Node) *tree {
 	growerFactory := func(lastNodeFormat, intermedialNodeFormat branchFormat, dryrun bool, encode encode) grower {
-		if encode != encodeDefault {
-			return newNopGrower()
-		}
 		return newGrower(lastNodeFormat, intermedialNodeFormat, dryrun)
 	}
 
